@@ -128,6 +128,18 @@ def showOption : EOpt → String
 def showOptions (os : List EOpt) : String :=
   if os.isEmpty then "-" else ";".intercalate (os.map showOption)
 
+/-- insertion sort of rendered options (the `edns hit` op compares the option list as a set). -/
+def insertStr (s : String) : List String → List String
+  | [] => [s]
+  | x :: t => if s ≤ x then s :: x :: t else x :: insertStr s t
+
+def sortStrs : List String → List String
+  | [] => []
+  | x :: t => insertStr x (sortStrs t)
+
+def showOptionsSorted (os : List EOpt) : String :=
+  if os.isEmpty then "-" else ";".intercalate (sortStrs (os.map showOption))
+
 def showOpt (o : Opt) : String :=
   s!"{o.udp}/{boolStr o.doBit}/{o.version}/{showOptions o.options}"
 
@@ -146,15 +158,18 @@ def showFlags (f : Flags) : String :=
     ++ (if f.ad then "a" else "") ++ (if f.cd then "c" else "")
   if s.isEmpty then "-" else s
 
-def showReply (q : Query) : Option Msg → String
+def showReplyWith (sorted : Bool) (q : Query) : Option Msg → String
   | none => "none"
   | some m =>
     let qs := match m.question with
       | none => "0"
       | some x => if x == q.question then "e" else "x"
-    let opts := m.extra.filterMap (fun r => match r with | .opt o _ => some (showOpt o) | _ => none)
+    let showO := fun (o : Opt) => if sorted then s!"{o.udp}/{boolStr o.doBit}/{o.version}/{showOptionsSorted o.options}" else showOpt o
+    let opts := m.extra.filterMap (fun r => match r with | .opt o _ => some (showO o) | _ => none)
     let opt := if opts.isEmpty then "-" else "|".intercalate opts
     s!"id={m.id} op={m.opcode} rc={m.rcode} fl={showFlags m.fl} q={qs} an={showRRs m.answer} ns={showRRs m.ns} ex={showRRs m.extra} opt={opt}"
+
+def showReply (q : Query) (m : Option Msg) : String := showReplyWith false q m
 
 def parseProto (s : String) : Option Proto :=
   if s == "udp" then some .udp else if s == "tcp" then some .tcp
@@ -254,20 +269,22 @@ def step (st : State) (w : List String) : State × String :=
               let ede := match info.ede with | some (.raw _ dd) => bytesHex dd | _ => "-"
               (st, head ++ s!" info rc={info.rcode} ad={boolStr info.ad} dnssec={boolStr info.hasDnssec} ede={ede} body " ++ showReply q (some b))))
     | _, _, _ => (st, "bad-op")
-  | ["edns", "hit", path, proto, q, r] =>
-    match parseProto proto, parseQ q, parseR r with
-    | some p, some q, some u =>
+  | ["edns", "hit", path, proto, pl, q, r] =>
+    match parseProto proto, parseQ q, parseR r, (pl.splitOn ",").map String.toNat? with
+    | some p, some q, some u, [some plFull, some plStripped] =>
       (match upstream u false q with
        | none => (st, "bad-op")
        | some m =>
-         match newCacheEntry m with
+         if q.opcode > 0 then (st, "bad-op") else
+         let s0 := setEdns0 consts st.cfg.ecs q.opt
+         let wire := path == "w" && wireEligible q
+         let w := if wire then writerWire consts p q else writerDecoded consts p q s0
+         -- packed lengths are measured by the harness: the stored body, and the one stripped for DO=0
+         let Lp := fun (b : Msg) => if (b.answer ++ b.ns).any RR.isDnssec then plFull else plStripped
+         match cacheHit (msgLen true) (msgLen false) Lp st.cfg st.secretLen w (p == .udp || p == .tcp) m (normalised q s0) with
          | none => (st, "miss")
-         | some e =>
-           let wire := path == "w" && wireEligible q
-           let wb := wire && (q.opt.isNone || (q.opt.map (·.version)) == some 0)
-           (st, showReply q (serveGuarded (msgLen true) (msgLen false) consts st.cfg p q wb
-                               (fun q' => .done (some (toMsg e q'))))))
-    | _, _, _ => (st, "bad-op")
+         | some r => (st, showReplyWith true q (some r)))
+    | _, _, _, _ => (st, "bad-op")
   | "edns" :: "tomsg" :: q :: r :: rest =>
     match parseQ q, parseR r with
     | some q, some u =>
